@@ -34,6 +34,32 @@
             installed (pinned: the first Eups of a process loads the invoking flavor only) or
             after (repaired: the invoking flavor and its fall-backs).
 
+   User tags.  A user tag of user u is a chain file in the tag directory of u for the stack (the
+   directory that also holds the cache files of u for that stack), one subdirectory per product;
+   only u reads and writes it.  In a ProductFamily it is an entry of the same tags dictionary under
+   the name user:t; here the user tags of a family are kept apart in [f_utags] (tag names that start
+   with user: are not global tag names).  Operations: Eups.assignTag / unassignTag with a user tag
+   ([PUAssign], [PUUnassign]); Database.undeclare removes the user tags of the undeclaring user from
+   the undeclared version; ProductFamily.removeVersion drops every tag of the version; a rebuild
+   (refreshFromDatabase(userTagDir)) reads the user tags of the loading user; a load from the cache
+   files of ups_db is followed by ProductStack._loadUserTags; cacheIsUpToDate compares a cache file in
+   a user's directory with that user's tag directory as well as with the stack's records.
+
+   The model follows the code with the six repairs proposed for this property; the variant record
+   keeps the pinned behaviour of five of them:
+   v_uloc     : Eups.assignTag writes the chain file of a user tag among the stack's own chain files
+                (pinned) or into the user's tag directory (repaired);
+   v_ustale   : cacheIsUpToDate looks for newer files in Database(cacheDir), which lists no product
+                because a tag directory has no version files (pinned), or in the user's tag
+                directory for the products of the stack (repaired);
+   v_noread   : Eups.declare registers the new version in the cache with the tag given on the
+                command line only (pinned), or with the tags the database now gives it, among them
+                the user's chain files that already name it (repaired);
+   v_shared   : an administrator's rebuild writes his user tags into the cache files of ups_db
+                (pinned), or no user tag at all (repaired);
+   (ProductStack._loadUserTags raising ProductNotFound on a chain file whose version is gone, and
+   Tags.saveGroup raising for the global group, have no pinned variant: a raise is not a state.)
+
    Executable definitions only. *)
 From Eupsv Require Import Base.Base Model.Db.
 
@@ -41,22 +67,30 @@ From Eupsv Require Import Base.Base Model.Db.
 
 Record family := mkFam {
   f_versions : amap vrec;     (* version -> (directory, table file) *)
-  f_tags : amap str           (* tag -> version *)
+  f_tags : amap str;          (* tag -> version *)
+  f_utags : amap str          (* user tag -> version: the entries user:t of the same dictionary *)
 }.
 
-Definition fam_empty : family := mkFam [] [].
+Definition fam_empty : family := mkFam [] [] [].
 
 Definition fam_has_version (v : str) (fm : family) : bool := amem v (f_versions fm).
 
 Definition fam_add_version (v : str) (r : vrec) (fm : family) : family :=
-  mkFam (aset v r (f_versions fm)) (f_tags fm).
+  mkFam (aset v r (f_versions fm)) (f_tags fm) (f_utags fm).
 
 (* assignTag raises ProductNotFound when the version is not registered *)
 Definition fam_assign_tag (t v : str) (fm : family) : res family :=
-  if fam_has_version v fm then Ok (mkFam (f_versions fm) (aset t v (f_tags fm))) else Err NotFound.
+  if fam_has_version v fm then Ok (mkFam (f_versions fm) (aset t v (f_tags fm)) (f_utags fm)) else Err NotFound.
 
 Definition fam_unassign_tag (t : str) (fm : family) : family * bool :=
-  if amem t (f_tags fm) then (mkFam (f_versions fm) (aremove t (f_tags fm)), true) else (fm, false).
+  if amem t (f_tags fm) then (mkFam (f_versions fm) (aremove t (f_tags fm)) (f_utags fm), true) else (fm, false).
+
+(* the same two for a user tag *)
+Definition fam_assign_utag (t v : str) (fm : family) : res family :=
+  if fam_has_version v fm then Ok (mkFam (f_versions fm) (f_tags fm) (aset t v (f_utags fm))) else Err NotFound.
+
+Definition fam_unassign_utag (t : str) (fm : family) : family * bool :=
+  if amem t (f_utags fm) then (mkFam (f_versions fm) (f_tags fm) (aremove t (f_utags fm)), true) else (fm, false).
 
 Definition remove_keys {V} (ks : list str) (m : amap V) : amap V := fold_left (fun m k => aremove k m) ks m.
 
@@ -70,7 +104,8 @@ Definition tags_of_version (v : str) (tags : amap str) : list str :=
 Definition fam_remove_version (pin_rm : bool) (v : str) (fm : family) : family * bool :=
   if fam_has_version v fm then
     (mkFam (aremove v (f_versions fm))
-           (if pin_rm then f_tags fm else remove_keys (tags_of_version v (f_tags fm)) (f_tags fm)), true)
+           (if pin_rm then f_tags fm else remove_keys (tags_of_version v (f_tags fm)) (f_tags fm))
+           (if pin_rm then f_utags fm else remove_keys (tags_of_version v (f_utags fm)) (f_utags fm)), true)
   else (fm, false).
 
 (* one flavor's data: product name -> family (the content of one cache file) *)
@@ -81,6 +116,9 @@ Definition fd_decl (fd : fdata) (n v : str) : option vrec :=
 
 Definition fd_tag (fd : fdata) (n t : str) : option str :=
   match alookup n fd with Some fm => alookup t (f_tags fm) | None => None end.
+
+Definition fd_utag (fd : fdata) (n t : str) : option str :=
+  match alookup n fd with Some fm => alookup t (f_utags fm) | None => None end.
 
 (* ---------------------------------------------------------------- the world *)
 
@@ -96,13 +134,23 @@ Definition upsdb : str := lit "db".
 Inductive rkey :=
 | RDir (s n : str)             (* ups_db/n *)
 | RVer (s : str) (k : key)     (* ups_db/n/v.version *)
-| RChain (s : str) (k : key).  (* ups_db/n/t.chain *)
+| RChain (s : str) (k : key)   (* ups_db/n/t.chain *)
+| RUDir (u s n : str)          (* tag directory of user u for stack s: n/ *)
+| RUChain (u s : str) (k : key). (* there: n/t.chain *)
+
+(* (user, stack, product, tag): one chain file of a user's tag directory *)
+Definition ukey := (str * str * str * str)%type.
+Definition ukey_eqb (a b : ukey) : bool :=
+  let '(u, s, n, t) := a in let '(u', s', n', t') := b in
+  str_eqb u u' && str_eqb s s' && str_eqb n n' && str_eqb t t'.
 
 Definition rkey_eqb (a b : rkey) : bool :=
   match a, b with
   | RDir s n, RDir s' n' => str_eqb s s' && str_eqb n n'
   | RVer s k, RVer s' k' => str_eqb s s' && key_eqb k k'
   | RChain s k, RChain s' k' => str_eqb s s' && key_eqb k k'
+  | RUDir u s n, RUDir u' s' n' => str_eqb u u' && str_eqb s s' && str_eqb n n'
+  | RUChain u s k, RUChain u' s' k' => str_eqb u u' && str_eqb s s' && key_eqb k k'
   | _, _ => false
   end.
 
@@ -110,10 +158,11 @@ Record world := mkW {
   w_db : db;
   w_clock : nat;
   w_stamps : list (rkey * nat);
-  w_pickles : list (pkey * pickle)
+  w_pickles : list (pkey * pickle);
+  w_uc : list (ukey * ccontent)      (* the chain files of the users' tag directories; none is empty *)
 }.
 
-Definition init_world (path : list str) : world := mkW (empty_db path) 0 [] [].
+Definition init_world (path : list str) : world := mkW (empty_db path) 0 [] [] [].
 
 Definition stamp_of (st : list (rkey * nat)) (k : rkey) : nat :=
   match glookup rkey_eqb k st with Some t => t | None => 0 end.
@@ -143,6 +192,33 @@ Definition newer_n (d : db) (st : list (rkey * nat)) (s n : str) (tau : nat) : b
 Definition newer_than (w : world) (s : str) (tau : nat) : bool :=
   existsb (fun n => newer_n (w_db w) (w_stamps w) s n tau) (db_names (w_db w) s).
 
+(* ---------------------------------------------------------------- the users' tag directories *)
+
+Definition uc_file (uc : list (ukey * ccontent)) (u s n t : str) : ccontent :=
+  match glookup ukey_eqb (u, s, n, t) uc with Some c => c | None => [] end.
+
+(* the version that the chain file of user tag t gives for flavor f *)
+Definition uc_tag (uc : list (ukey * ccontent)) (u s n t f : str) : option str := alookup f (uc_file uc u s n t).
+
+(* the chain files of user u for product n of stack s, as (tag, content) *)
+Definition uc_of (uc : list (ukey * ccontent)) (u s n : str) : list (str * ccontent) :=
+  flat_map (fun e : ukey * ccontent =>
+    let '(u', s', n', t) := fst e in
+    if str_eqb u' u && str_eqb s' s && str_eqb n' n then [(t, snd e)] else []) uc.
+
+(* Database.findTags restricted to the tag directory: the user tags whose entry for f is v *)
+Definition utags_on (uc : list (ukey * ccontent)) (u s n v f : str) : list str :=
+  flat_map (fun tc : str * ccontent => if opt_str_eqb (alookup f (snd tc)) v then [fst tc] else []) (uc_of uc u s n).
+
+(* is some file of the tag directory of user u for product n of stack s newer than tau *)
+Definition unewer_n (uc : list (ukey * ccontent)) (st : list (rkey * nat)) (u s n : str) (tau : nat) : bool :=
+  (tau <? stamp_of st (RUDir u s n))
+  || existsb (fun tc : str * ccontent => tau <? stamp_of st (RUChain u s (n, fst tc))) (uc_of uc u s n).
+
+(* Database(ups_db).isNewerThan(tau, tag directory): the products of the stack, looked up there *)
+Definition unewer_than (w : world) (u s : str) (tau : nat) : bool :=
+  existsb (fun n => unewer_n (w_uc w) (w_stamps w) u s n tau) (db_names (w_db w) s).
+
 (* ---------------------------------------------------------------- effects with stamps *)
 
 Definition eff_name (e : fseffect) : str :=
@@ -169,7 +245,7 @@ Variable tick : nat -> nat.
 
 Definition do_effect (w : world) (e : fseffect) : world :=
   let t := tick (w_clock w) in
-  mkW (apply1 e (w_db w)) t (stamp_effect e (w_db w) t (w_stamps w)) (w_pickles w).
+  mkW (apply1 e (w_db w)) t (stamp_effect e (w_db w) t (w_stamps w)) (w_pickles w) (w_uc w).
 
 Definition do_effects (w : world) (es : list fseffect) : world := fold_left do_effect es w.
 
@@ -177,6 +253,37 @@ Definition do_effects (w : world) (es : list fseffect) : world := fold_left do_e
 Definition do_act (w : world) (x : aact) : world := do_effects w (compile (w_db w) x).
 
 Definition do_acts (w : world) (xs : list aact) : world := fold_left do_act xs w.
+
+(* Database.assignTag(user:t, n, v, f) in the tag directory of u (the product directory is made when missing) *)
+Definition do_uset (w : world) (u s n t f v : str) : world :=
+  let c := tick (w_clock w) in
+  mkW (w_db w) c (sset (RUChain u s (n, t)) c (sset (RUDir u s n) c (w_stamps w))) (w_pickles w)
+      (gset ukey_eqb (u, s, n, t) (aset f v (uc_file (w_uc w) u s n t)) (w_uc w)).
+
+(* Database.unassignTag(user:t, n, f) there: the file is rewritten without the flavor, or removed with its
+   last flavor; nothing happens when the file does not name the flavor *)
+Definition do_udel (w : world) (u s n t f : str) : world :=
+  let old := uc_file (w_uc w) u s n t in
+  if amem f old then
+    let c := tick (w_clock w) in
+    let new := aremove f old in
+    if is_nil new
+    then mkW (w_db w) c (sset (RUDir u s n) c (w_stamps w)) (w_pickles w) (gremove ukey_eqb (u, s, n, t) (w_uc w))
+    else mkW (w_db w) c (sset (RUChain u s (n, t)) c (sset (RUDir u s n) c (w_stamps w))) (w_pickles w)
+             (gset ukey_eqb (u, s, n, t) new (w_uc w))
+  else w.
+
+(* what Database.undeclare does in the tag directory of the undeclaring user: his tags leave the version *)
+Definition do_uact (w : world) (u : str) (x : aact) : world :=
+  match x with
+  | ADelDecl s n v f =>
+      if is_some (db_decl (w_db w) s n v f)
+      then fold_left (fun w t => do_udel w u s n t f) (utags_on (w_uc w) u s n v f) w
+      else w
+  | _ => w
+  end.
+
+Definition do_uacts (w : world) (u : str) (xs : list aact) : world := fold_left (fun w x => do_uact w u x) xs w.
 
 (* ---------------------------------------------------------------- ProductStack in memory *)
 
@@ -193,11 +300,13 @@ Definition ps_names (ps : pstack) : list str :=
 Definition same_names (a b : list str) : bool :=
   forallb (fun x => mem_str x b) a && forallb (fun x => mem_str x a) b.
 
-(* cacheIsUpToDate *)
-Definition up_to_date (w : world) (loc s fl : str) : bool :=
+(* cacheIsUpToDate; a cache directory other than ups_db is a user's tag directory as well *)
+Definition up_to_date (pin_ustale : bool) (w : world) (loc s fl : str) : bool :=
   match pk_get w loc s fl with
   | None => false
-  | Some p => negb (newer_than w s (pk_stamp p))
+  | Some p =>
+      negb (negb pin_ustale && negb (str_eqb loc upsdb) && unewer_than w loc s (pk_stamp p))
+      && negb (newer_than w s (pk_stamp p))
   end.
 
 (* reload(flavors, dir): a missing file is skipped *)
@@ -213,8 +322,8 @@ Fixpoint reload (w : world) (loc s : str) (fls : list str) (ps : pstack) : pstac
   end.
 
 (* _tryCache: every needed flavor up to date, then load them and compare the product names *)
-Definition try_cache (w : world) (loc s : str) (fls : list str) (ps : pstack) : pstack * bool :=
-  if forallb (up_to_date w loc s) fls then
+Definition try_cache (pin_ustale : bool) (w : world) (loc s : str) (fls : list str) (ps : pstack) : pstack * bool :=
+  if forallb (up_to_date pin_ustale w loc s) fls then
     let ps1 := reload w loc s fls ps in
     if same_names (db_names (w_db w) s) (ps_names ps1) then (ps1, true)
     else (mkPS [] (ps_modtimes ps1), false)
@@ -232,7 +341,7 @@ Definition persist (w : world) (s loc fl : str) (ps : pstack) : world * pstack :
   let t := tick (w_clock w) in
   let data := match alookup fl (ps_lookup ps) with Some fd => fd | None => [] end in
   let lk := match alookup fl (ps_lookup ps) with Some _ => ps_lookup ps | None => aset fl [] (ps_lookup ps) end in
-  (mkW (w_db w) t (w_stamps w) (gset pkey_eqb (loc, s, fl) (mkPk t data) (w_pickles w)),
+  (mkW (w_db w) t (w_stamps w) (gset pkey_eqb (loc, s, fl) (mkPk t data) (w_pickles w)) (w_uc w),
    mkPS lk (gset key_eqb (loc, fl) t (ps_modtimes ps))).
 
 (* save(flavors): a flavor whose file is out of sync is skipped and reported *)
@@ -248,7 +357,19 @@ Fixpoint save (w : world) (s loc : str) (fls : list str) (ps : pstack) : world *
 
 (* refreshFromDatabase: what the version and chain files of the stack say, for every flavor.
    Candidates come from the file names, values from the record lookups. *)
-Definition rebuild_family (d : db) (s f n : str) : family :=
+(* the user tags a rebuild gives product n: the chain files of the tag directory whose version is declared *)
+Definition rebuild_utags (d : db) (uc : list (ukey * ccontent)) (utd : option str) (s f n : str) : amap str :=
+  match utd with
+  | None => []
+  | Some u =>
+      flat_map (fun tc : str * ccontent =>
+        match alookup f (snd tc) with
+        | Some v => if is_some (db_decl d s n v f) then [(fst tc, v)] else []
+        | None => []
+        end) (uc_of uc u s n)
+  end.
+
+Definition rebuild_family (d : db) (uc : list (ukey * ccontent)) (utd : option str) (s f n : str) : family :=
   mkFam
     (flat_map (fun kv : key * vcontent =>
        if str_eqb (vname kv) n then
@@ -260,22 +381,49 @@ Definition rebuild_family (d : db) (s f n : str) : family :=
          | Some v => if is_some (db_decl d s n v f) then [(snd (fst kv), v)] else []
          | None => []
          end
-       else []) (cfiles (stack_of d s))).
+       else []) (cfiles (stack_of d s)))
+    (rebuild_utags d uc utd s f n).
 
-Definition rebuild_fdata (d : db) (s f : str) : fdata :=
-  flat_map (fun n => let fm := rebuild_family d s f n in
+Definition rebuild_fdata (d : db) (uc : list (ukey * ccontent)) (utd : option str) (s f : str) : fdata :=
+  flat_map (fun n => let fm := rebuild_family d uc utd s f n in
                      if is_nil (f_versions fm) then [] else [(n, fm)]) (db_names d s).
 
-Definition rebuild_lookup (d : db) (s : str) : amap fdata :=
-  map (fun f => (f, rebuild_fdata d s f)) (db_flavors d s).
+Definition rebuild_lookup (d : db) (uc : list (ukey * ccontent)) (utd : option str) (s : str) : amap fdata :=
+  map (fun f => (f, rebuild_fdata d uc utd s f)) (db_flavors d s).
 
-(* fromCache(dbpath, flavors, persistDir = loc) *)
-Definition from_cache (w : world) (s loc : str) (needed : list str) : world * pstack :=
-  let '(ps1, ok1) := try_cache w loc s needed ps_empty in
+(* ProductStack._loadUserTags(tag directory) after a load from the cache files of ups_db: every
+   assignment of every chain file of the products of the stack goes into the loaded family that has
+   the version (repaired: an assignment whose version or flavor is not loaded is passed over) *)
+Definition set_utag (lk : amap fdata) (f n t v : str) : amap fdata :=
+  match alookup f lk with
+  | None => lk
+  | Some fd =>
+      match alookup n fd with
+      | None => lk
+      | Some fm => match fam_assign_utag t v fm with
+                   | Ok fm' => aset f (aset n fm' fd) lk
+                   | Err _ => lk
+                   end
+      end
+  end.
+
+Definition load_utags_n (uc : list (ukey * ccontent)) (u s n : str) (lk : amap fdata) : amap fdata :=
+  fold_left (fun lk (tc : str * ccontent) =>
+    fold_left (fun lk (fv : str * str) => set_utag lk (fst fv) n (fst tc) (snd fv)) (snd tc) lk) (uc_of uc u s n) lk.
+
+Definition load_user_tags (d : db) (uc : list (ukey * ccontent)) (utd : option str) (s : str) (ps : pstack) : pstack :=
+  match utd with
+  | None => ps
+  | Some u => mkPS (fold_left (fun lk n => load_utags_n uc u s n lk) (db_names d s) (ps_lookup ps)) (ps_modtimes ps)
+  end.
+
+(* fromCache(dbpath, flavors, persistDir = loc, userTagDir = utd) *)
+Definition from_cache (pin_ustale : bool) (w : world) (s loc : str) (utd : option str) (needed : list str) : world * pstack :=
+  let '(ps1, ok1) := try_cache pin_ustale w loc s needed ps_empty in
   if ok1 then (w, ps1) else
-  let '(ps2, ok2) := try_cache w upsdb s needed ps1 in
-  if ok2 then (w, ps2) else
-  let lk := rebuild_lookup (w_db w) s in
+  let '(ps2, ok2) := try_cache pin_ustale w upsdb s needed ps1 in
+  if ok2 then (w, load_user_tags (w_db w) (w_uc w) utd s ps2) else
+  let lk := rebuild_lookup (w_db w) (w_uc w) utd s in
   let '(w', ps3, _) := save w s loc (uniq (akeys lk ++ needed)) (mkPS lk (ps_modtimes ps2)) in
   (w', ps3).
 
@@ -306,12 +454,18 @@ Definition ps_del_family (ps : pstack) (f n : str) : pstack :=
 
 (* the update of one ProductStack for one record-level action; the boolean says whether the
    stack reports a change; Err = the call raises (ProductNotFound) *)
-Definition wt_act (pin_rm : bool) (x : aact) (ps : pstack) : res (pstack * bool) :=
+(* the chain files of the tag directory that name the version apply to it (again): findTags after the declaration *)
+Definition fam_read_back (uts : list str) (v : str) (fm : family) : family :=
+  mkFam (f_versions fm) (f_tags fm) (fold_left (fun m t => aset t v m) uts (f_utags fm)).
+
+(* uts s n v f: the user tags that the tag directory of the acting user gives that version *)
+Definition wt_act (pin_rm : bool) (uts : str -> str -> str -> str -> list str) (x : aact) (ps : pstack)
+  : res (pstack * bool) :=
   match x with
-  | ASetDecl _ n v f r =>
-      (* addProduct: addVersion on the (possibly new) family *)
+  | ASetDecl s n v f r =>
+      (* addProduct: addVersion on the (possibly new) family, then the tags the product carries *)
       let fm := match ps_family ps f n with Some fm => fm | None => fam_empty end in
-      Ok (ps_set_family ps f n (fam_add_version v r fm), true)
+      Ok (ps_set_family ps f n (fam_read_back (uts s n v f) v (fam_add_version v r fm)), true)
   | ASetTag _ n t f v =>
       (* lookup[flavor][product].assignTag(tag, version); KeyError and ProductNotFound both end in a raise *)
       match ps_family ps f n with
@@ -339,13 +493,14 @@ Definition wt_act (pin_rm : bool) (x : aact) (ps : pstack) : res (pstack * bool)
       end
   end.
 
-Fixpoint wt_acts (pin_rm : bool) (xs : list aact) (ps : pstack) : res (pstack * bool) :=
+Fixpoint wt_acts (pin_rm : bool) (uts : str -> str -> str -> str -> list str) (xs : list aact) (ps : pstack)
+  : res (pstack * bool) :=
   match xs with
   | [] => Ok (ps, false)
   | x :: r =>
-      match wt_act pin_rm x ps with
+      match wt_act pin_rm uts x ps with
       | Err e => Err e
-      | Ok (ps1, c1) => match wt_acts pin_rm r ps1 with
+      | Ok (ps1, c1) => match wt_acts pin_rm uts r ps1 with
                         | Err e => Err e
                         | Ok (ps2, c2) => Ok (ps2, c1 || c2)
                         end
@@ -356,8 +511,14 @@ Fixpoint wt_acts (pin_rm : bool) (xs : list aact) (ps : pstack) : res (pstack * 
 
 Definition mem := amap pstack.     (* Eups.versions: stack -> ProductStack *)
 
-Record variant := mkVar { v_rm : bool; v_init : bool }.
-Definition repaired : variant := mkVar false false.
+Record variant := mkVar {
+  v_rm : bool; v_init : bool; v_uloc : bool; v_ustale : bool; v_noread : bool; v_shared : bool
+}.
+Definition repaired : variant := mkVar false false false false false false.
+
+(* the user tags the write-through of a declaration reads back *)
+Definition read_back (pin_noread : bool) (w : world) (u : str) : str -> str -> str -> str -> list str :=
+  fun s n v f => if pin_noread then [] else utags_on (w_uc w) u s n v f.
 
 (* neededFlavors of Eups.__init__ *)
 Definition needed (pin_init : bool) (fl : str) : list str := if pin_init then [fl] else fallbacks fl.
@@ -391,31 +552,31 @@ Definition group_stack (g : list aact) : str :=
 Inductive gres := GOk | GCrashed | GRaised.
 
 (* save(self.flavor) of the write-through blocks: CacheOutOfSync is answered by refreshFromDatabase *)
-Definition save_flavor (w : world) (s loc fl : str) (ps : pstack) : world * pstack :=
+Definition save_flavor (w : world) (s loc u fl : str) (ps : pstack) : world * pstack :=
   if in_sync w s ps loc fl then persist w s loc fl ps
-  else (w, mkPS (rebuild_lookup (w_db w) s) (ps_modtimes ps)).
+  else (w, mkPS (rebuild_lookup (w_db w) (w_uc w) (Some u) s) (ps_modtimes ps)).
 
 (* database update ; [death] ; ensureInSync ; in-memory update ; save *)
-Definition run_group (vr : variant) (loc fl : str) (w : world) (m : mem) (g : list aact) (die_after_db : bool)
+Definition run_group (vr : variant) (loc u fl : str) (w : world) (m : mem) (g : list aact) (die_after_db : bool)
   : world * mem * gres :=
-  let w1 := do_acts w g in
+  let w1 := do_acts (do_uacts w u g) g in
   if die_after_db then (w1, m, GCrashed) else
   let s := group_stack g in
   match alookup s m with
   | None => (w1, m, GOk)
   | Some ps =>
       let ps1 := ensure_in_sync w1 s loc ps in
-      match wt_acts (v_rm vr) g ps1 with
+      match wt_acts (v_rm vr) (read_back (v_noread vr) w1 u) g ps1 with
       | Err _ => (w1, aset s ps1 m, GRaised)
       | Ok (ps2, changed) =>
           if save_always g || changed then
-            let '(w2, ps3) := save_flavor w1 s loc fl ps2 in (w2, aset s ps3 m, GOk)
+            let '(w2, ps3) := save_flavor w1 s loc u fl ps2 in (w2, aset s ps3 m, GOk)
           else (w1, aset s ps2 m, GOk)
       end
   end.
 
 (* crash = (index of the group, false: die before its database call / true: right after it) *)
-Fixpoint run_groups (vr : variant) (loc fl : str) (w : world) (m : mem) (gs : list (list aact))
+Fixpoint run_groups (vr : variant) (loc u fl : str) (w : world) (m : mem) (gs : list (list aact))
   (crash : option (nat * bool)) : world * mem * gres :=
   match gs with
   | [] => (w, m, GOk)
@@ -424,9 +585,9 @@ Fixpoint run_groups (vr : variant) (loc fl : str) (w : world) (m : mem) (gs : li
       | Some (0, false) => (w, m, GCrashed)
       | _ =>
         let die := match crash with Some (0, true) => true | _ => false end in
-        let '(w1, m1, r) := run_group vr loc fl w m g die in
+        let '(w1, m1, r) := run_group vr loc u fl w m g die in
         match r with
-        | GOk => run_groups vr loc fl w1 m1 rest
+        | GOk => run_groups vr loc u fl w1 m1 rest
                    (match crash with Some (S k, b) => Some (k, b) | _ => None end)
         | _ => (w1, m1, r)
         end
@@ -435,72 +596,208 @@ Fixpoint run_groups (vr : variant) (loc fl : str) (w : world) (m : mem) (gs : li
 
 Inductive pop :=
 | POp (x : op)                 (* a command of Model/Db.v, issued by this process's Eups *)
-| PDel (loc s fl : str).       (* somebody removes a cache file while the process lives *)
+| PDel (loc s fl : str)        (* somebody removes a cache file while the process lives *)
+| PUAssign (o : opts) (t n v : str)              (* Eups.assignTag(t, n, v, stack) with a user tag t *)
+| PUUnassign (o : opts) (t n : str) (v : option str).   (* Eups.unassignTag(t, n, v, stack) with a user tag t *)
 
 Definition delete_cache (w : world) (loc s fl : str) : world :=
-  mkW (w_db w) (w_clock w) (w_stamps w) (gremove pkey_eqb (loc, s, fl) (w_pickles w)).
+  mkW (w_db w) (w_clock w) (w_stamps w) (gremove pkey_eqb (loc, s, fl) (w_pickles w)) (w_uc w).
 
 Inductive outcome := OOk | OErr (e : errkind) | ORaised | OCrashed.
 
 (* the decisions are those of Model/Db.v on the files; the op must be issued under the
    process's own flavor (an Eups has one) *)
-Definition run_op (vr : variant) (loc fl : str) (w : world) (m : mem) (x : op) (crash : option (nat * bool))
+Definition run_op (vr : variant) (loc u fl : str) (w : world) (m : mem) (x : op) (crash : option (nat * bool))
   : world * mem * outcome :=
   if negb (str_eqb (o_flavor (op_opts x)) fl) then (w, m, OErr Undefined) else
   match decide false (view (w_db w)) x with
   | Err e => (w, m, OErr e)
   | Ok acts =>
-      let '(w1, m1, r) := run_groups vr loc fl w m (groups acts) crash in
+      let '(w1, m1, r) := run_groups vr loc u fl w m (groups acts) crash in
       (w1, m1, match r with GOk => OOk | GCrashed => OCrashed | GRaised => ORaised end)
   end.
 
-Definition run_pop (vr : variant) (loc fl : str) (w : world) (m : mem) (x : pop) (crash : option (nat * bool))
+(* ---------------------------------------------------------------- the two user-tag commands *)
+
+(* the user tag t of user u on product n of stack s that a reader sees: the version must be declared *)
+Definition vis_utag (w : world) (u s n t f : str) : option str :=
+  match uc_tag (w_uc w) u s n t f with
+  | Some v => if is_some (db_decl (w_db w) s n v f) then Some v else None
+  | None => None
+  end.
+
+Fixpoint first_utagged (w : world) (u : str) (roots : list str) (n t f : str) : option (str * str) :=
+  match roots with
+  | [] => None
+  | s :: r => match vis_utag w u s n t f with Some v => Some (s, v) | None => first_utagged w u r n t f end
+  end.
+
+(* what one call of Database.assignTag / unassignTag for a user tag is to do, or nothing (a message only) *)
+Inductive uact :=
+| USet (s n t f v : str)
+| UDel (s n t f : str).
+
+(* Eups.assignTag: the product is looked for as for a global tag (Model/Db.v assign_acts) *)
+Definition uassign_plan (w : world) (o : opts) (t n v : str) : res (option uact) :=
+  let a := view (w_db w) in
+  match find_exact a (roots_of a (o_stack o)) n v (o_flavor o) with
+  | Some (s', _) => Ok (Some (USet s' n t (o_flavor o) v))
+  | None => Err NotFound
+  end.
+
+(* Eups.unassignTag: as Model/Db.v unassign_acts, the tag being looked up in the tag directory *)
+Definition uunassign_plan (w : world) (u : str) (o : opts) (t n : str) (vo : option str) : res (option uact) :=
+  let a := view (w_db w) in
+  let f := o_flavor o in
+  match vo with
+  | Some v =>
+      match find_exact a (roots_of a (o_stack o)) n v f with
+      | None => Err NotFound
+      | Some (s', _) =>
+          if opt_str_eqb (uc_tag (w_uc w) u s' n t f) v
+          then (if o_noaction o then Ok None else Ok (Some (UDel s' n t f)))
+          else Ok None
+      end
+  | None =>
+      match o_stack o with
+      | None =>
+          match first_utagged w u (apath a) n t f with
+          | Some (s', _) => if o_noaction o then Ok None else Ok (Some (UDel s' n t f))
+          | None =>
+              match find_tagged a (apath a) n current f with
+              | Some _ => Ok None
+              | None => Err NotFound
+              end
+          end
+      | Some s => if o_noaction o then Ok None else Ok (Some (UDel s n t f))
+      end
+  end.
+
+Definition uact_stack (x : uact) : str := match x with USet s _ _ _ _ | UDel s _ _ _ => s end.
+
+(* the database call.  Pinned Eups.assignTag passes the stack's own database as the place to write:
+   the chain file of the user tag lands among the global ones *)
+Definition do_udb (pin_uloc : bool) (w : world) (u : str) (x : uact) : world :=
+  match x with
+  | USet s n t f v => if pin_uloc then do_act w (ASetTag s n t f v) else do_uset w u s n t f v
+  | UDel s n t f => do_udel w u s n t f
+  end.
+
+(* the update of the ProductStack: ProductStack.assignTag raises when no loaded family has the version *)
+Definition wt_uact (x : uact) (ps : pstack) : res (pstack * bool) :=
+  match x with
+  | USet _ n t f v =>
+      match ps_family ps f n with
+      | None => Err NotFound
+      | Some fm => match fam_assign_utag t v fm with
+                   | Ok fm' => Ok (ps_set_family ps f n fm', true)
+                   | Err e => Err e
+                   end
+      end
+  | UDel _ n t f =>
+      match ps_family ps f n with
+      | None => Ok (ps, false)
+      | Some fm => let '(fm', ch) := fam_unassign_utag t fm in
+                   if ch then Ok (ps_set_family ps f n fm', true) else Ok (ps, false)
+      end
+  end.
+
+(* database call ; [death] ; ensureInSync ; in-memory update ; save (assignTag always, unassignTag when
+   the stack reported a change) *)
+Definition run_uact (vr : variant) (loc u fl : str) (w : world) (m : mem) (x : uact) (crash : option (nat * bool))
+  : world * mem * outcome :=
+  match crash with
+  | Some (0, false) => (w, m, OCrashed)
+  | _ =>
+    let w1 := do_udb (v_uloc vr) w u x in
+    match crash with
+    | Some (0, true) => (w1, m, OCrashed)
+    | _ =>
+      let s := uact_stack x in
+      match alookup s m with
+      | None => (w1, m, OOk)
+      | Some ps =>
+          let ps1 := ensure_in_sync w1 s loc ps in
+          match wt_uact x ps1 with
+          | Err _ => (w1, aset s ps1 m, ORaised)
+          | Ok (ps2, changed) =>
+              if (match x with USet _ _ _ _ _ => true | UDel _ _ _ _ => false end) || changed then
+                let '(w2, ps3) := save_flavor w1 s loc u fl ps2 in (w2, aset s ps3 m, OOk)
+              else (w1, aset s ps2 m, OOk)
+          end
+      end
+    end
+  end.
+
+Definition run_uop (vr : variant) (loc u fl : str) (w : world) (m : mem) (o : opts) (plan : res (option uact))
+  (crash : option (nat * bool)) : world * mem * outcome :=
+  if negb (str_eqb (o_flavor o) fl) then (w, m, OErr Undefined) else
+  match plan with
+  | Err e => (w, m, OErr e)
+  | Ok None => (w, m, OOk)
+  | Ok (Some x) => run_uact vr loc u fl w m x crash
+  end.
+
+Definition run_pop (vr : variant) (loc u fl : str) (w : world) (m : mem) (x : pop) (crash : option (nat * bool))
   : world * mem * outcome :=
   match x with
-  | POp o => run_op vr loc fl w m o crash
+  | POp o => run_op vr loc u fl w m o crash
   | PDel l s f => (delete_cache w l s f, m, OOk)
+  | PUAssign o t n v => run_uop vr loc u fl w m o (uassign_plan w o t n v) crash
+  | PUUnassign o t n vo => run_uop vr loc u fl w m o (uunassign_plan w u o t n vo) crash
   end.
 
 (* crash = (index of the operation, index of the group, before / after its database call) *)
-Fixpoint run_pops (vr : variant) (loc fl : str) (w : world) (m : mem) (xs : list pop)
+Fixpoint run_pops (vr : variant) (loc u fl : str) (w : world) (m : mem) (xs : list pop)
   (crash : option (nat * nat * bool)) : world * mem * list outcome :=
   match xs with
   | [] => (w, m, [])
   | x :: rest =>
       let c := match crash with Some (0, g, b) => Some (g, b) | _ => None end in
-      let '(w1, m1, oc) := run_pop vr loc fl w m x c in
+      let '(w1, m1, oc) := run_pop vr loc u fl w m x c in
       match oc with
       | OCrashed => (w1, m1, [oc])
       | _ =>
-        let '(w2, m2, ocs) := run_pops vr loc fl w1 m1 rest
+        let '(w2, m2, ocs) := run_pops vr loc u fl w1 m1 rest
                                 (match crash with Some (S i, g, b) => Some (i, g, b) | _ => None end) in
         (w2, m2, oc :: ocs)
       end
   end.
 
 (* Eups.__init__: fromCache for every stack of the path, in order *)
-Fixpoint load_stacks (w : world) (loc : str) (nf : list str) (path : list str) : world * mem :=
+Fixpoint load_stacks (pin_ustale : bool) (w : world) (loc : str) (utd : option str) (nf : list str) (path : list str)
+  : world * mem :=
   match path with
   | [] => (w, [])
   | s :: r =>
-      let '(w1, ps) := from_cache w s loc nf in
-      let '(w2, m) := load_stacks w1 loc nf r in
+      let '(w1, ps) := from_cache pin_ustale w s loc utd nf in
+      let '(w2, m) := load_stacks pin_ustale w1 loc utd nf r in
       (w2, (s, ps) :: m)
   end.
 
-Definition load (vr : variant) (w : world) (loc fl : str) : world * mem :=
-  load_stacks w loc (needed (v_init vr) fl) (map fst (w_db w)).
+(* Eups._setProductStack_fromCache: the tag directory handed to fromCache is the user's, except that
+   (repaired) a cache that is persisted into ups_db itself gets nobody's user tags *)
+Definition tag_dir (pin_shared : bool) (loc u : str) : option str :=
+  if str_eqb loc upsdb && negb pin_shared then None else Some u.
+
+(* an Eups of user u that persists its caches into directory loc (u itself, or ups_db as an administrator) *)
+Definition load (vr : variant) (w : world) (loc u fl : str) : world * mem :=
+  load_stacks (v_ustale vr) w loc (tag_dir (v_shared vr) loc u) (needed (v_init vr) fl) (map fst (w_db w)).
 
 Record proc := mkProc {
-  p_loc : str;        (* the cache directory the process persists to: its user's name, or [upsdb] for an administrator *)
+  p_user : str;       (* the user: the name of his data directory *)
+  p_admin : bool;     (* Eups(asAdmin=True): the caches are persisted into ups_db *)
   p_flavor : str;
   p_ops : list pop;
   p_crash : option (nat * nat * bool)
 }.
 
+(* the cache directory the process persists to *)
+Definition p_loc (p : proc) : str := if p_admin p then upsdb else p_user p.
+
 Definition run_proc_full (vr : variant) (w : world) (p : proc) : world * mem * list outcome :=
-  let '(w1, m) := load vr w (p_loc p) (p_flavor p) in
-  run_pops vr (p_loc p) (p_flavor p) w1 m (p_ops p) (p_crash p).
+  let '(w1, m) := load vr w (p_loc p) (p_user p) (p_flavor p) in
+  run_pops vr (p_loc p) (p_user p) (p_flavor p) w1 m (p_ops p) (p_crash p).
 
 Definition run_proc (vr : variant) (w : world) (p : proc) : world := fst (fst (run_proc_full vr w p)).
 
@@ -581,21 +878,57 @@ Definition q_cache (m : mem) (q : query) : answer := q_eval (mem_decl m) (mem_ta
 Definition q_db (w : world) (q : query) : answer :=
   q_eval (db_decl (w_db w)) (db_tag (w_db w)) (map fst (w_db w)) q.
 
+(* ---------------------------------------------------------------- queries about user tags *)
+
+Inductive uquery :=
+| UQHasTag (s n v t f : str)       (* does that version carry user tag t *)
+| UQTagged (s n t f : str)         (* the version user tag t designates in stack s *)
+| UQFindTagged (n t f : str).      (* Eups.findTaggedProduct(n, t, flavor=f) for a user tag t, over the path *)
+
+Definition uq_flavor (q : uquery) : str :=
+  match q with UQHasTag _ _ _ _ f | UQTagged _ _ _ f | UQFindTagged _ _ f => f end.
+
+Section UEval.
+Variable dl : str -> str -> str -> str -> option vrec.   (* stack, product, version, flavor *)
+Variable ul : str -> str -> str -> str -> option str.    (* stack, product, user tag, flavor *)
+
+Definition uq_eval (path : list str) (q : uquery) : answer :=
+  match q with
+  | UQHasTag s n v t f => ABool (is_some (dl s n v f) && opt_str_eqb (ul s n t f) v)
+  | UQTagged s n t f => AVer (vis_tag dl ul s n t f)
+  | UQFindTagged n t f => AStackVer (first_tagged dl ul path n t f)
+  end.
+End UEval.
+
+Definition mem_utag (m : mem) (s n t f : str) : option str :=
+  match alookup s m with
+  | Some ps => match alookup f (ps_lookup ps) with Some fd => fd_utag fd n t | None => None end
+  | None => None
+  end.
+
+(* the answer of an Eups whose product stacks are m (noCache=False) *)
+Definition uq_cache (m : mem) (q : uquery) : answer := uq_eval (mem_decl m) (mem_utag m) (map fst m) q.
+
+(* the answer read from the version files and the chain files of the tag directory of user u (noCache=True) *)
+Definition uq_db (w : world) (u : str) (q : uquery) : answer :=
+  uq_eval (db_decl (w_db w)) (fun s n t f => uc_tag (w_uc w) u s n t f) (map fst (w_db w)) q.
+
 (* ---------------------------------------------------------------- the vocabulary of the theorems *)
 
 (* distinct effects get distinct, increasing stamps *)
 Definition clock_strict (tick : nat -> nat) : Prop := forall c, c < tick c.
 
 (* the worlds that histories produce: any number of processes of any users and flavors, one after
-   the other, each with any operations, dying or not at any of the modelled points, and cache
-   files deleted at any moment; EUPS_PATH names each stack once *)
+   the other, each with any operations (user tags included), dying or not at any of the modelled
+   points, and cache files deleted at any moment; EUPS_PATH names each stack once; no user's
+   data directory is a stack's ups_db *)
 Inductive reachable (tick : nat -> nat) (vr : variant) : world -> Prop :=
 | R_init path : NoDup path -> reachable tick vr (init_world path)
-| R_proc w p : reachable tick vr w -> reachable tick vr (run_proc tick vr w p)
+| R_proc w p : p_user p <> upsdb -> reachable tick vr w -> reachable tick vr (run_proc tick vr w p)
 | R_del w loc s fl : reachable tick vr w -> reachable tick vr (delete_cache w loc s fl).
 
 (* does fromCache believe the cache files of directory loc for stack s (the outcome of _tryCache) *)
-Definition believed (w : world) (loc s : str) (nf : list str) : bool := snd (try_cache w loc s nf ps_empty).
+Definition believed (w : world) (loc s : str) (nf : list str) : bool := snd (try_cache false w loc s nf ps_empty).
 
 (* ---------------------------------------------------------------- for the driver *)
 
